@@ -350,6 +350,10 @@ var c01StmtAlphabet = []string{
 	"mk = func(n) { func(x) { x + n } }", "w = mk(2)(v)", "fa = func(a, ..) { len(..) + a }", "w = fa(1, 2, 3)",
 	"r = n => if n <= 0 { 0 } else { 1 + self(n - 1) }", "w = r(3)",
 	"arr = [v, w]", "arr[0] = 100", "w = arr[0] + arr[-1]", "m = {\"a\": v}", "m.a = m.a + 1", "w = m.a",
+	"keep = func() { [v, w] }(); v = 77; println(keep)", "keep = func() { {\"k\": v} }(); v = 78; println(keep)", "keep = func(..) { .. }(v, w); v = 79; println(keep)",
+	"fs = func() { v }; keep = [fs(), fs() + 1]; v = 81; println(keep)", "s1 = \"str\"; func() { println(s1, [s1], len(s1)) }()", "func() { println(v == 2, v < w, -v, !(v == w), [v][0]) }()",
+	"func() { if v == 2 { println(\"two\") }; for v > 100 { break }; for e = [v] { println(e) } }()", "aa = [v, w]; func() { aa[0] = 5; println(aa) }(); println(aa)", "func() { m2 = {v: w}; println(m2, m2[v]) }()",
+	"print(v++, \" \"); print(v, \"\\n\")", "func() { x = v; x = x + 1; println(x, v) }()", "lst = [v]; v = 60; println(lst)",
 	"println(v, w)", "println(p)", "error(\"boom\")", "x = v; v = 50; w = x", "del(w)", "w = [v, p][1]", "t = v; func up() { t = t + 1 }; up(); w = t",
 }
 
